@@ -456,11 +456,28 @@ class HttpProxyPlugin(HttpProtocolHandlerPlugin):
                             return
                         self.pipeline_request = r
                     assert self.pipeline_request is not None
+                    # Same treatment as the first request of the connection:
+                    # drop hop-by-hop proxy headers, add Via and respect
+                    # --disable-headers before dispatching to upstream.
+                    self.pipeline_request.del_headers(
+                        [
+                            httpHeaders.PROXY_AUTHORIZATION,
+                            httpHeaders.PROXY_CONNECTION,
+                        ],
+                    )
+                    # Requests decrypted out of an intercepted tunnel
+                    # are relayed without announcing the proxy.
+                    if not self.request.is_https_tunnel:
+                        self.pipeline_request.add_headers(
+                            [(b'Via', b'1.1 %s' % PROXY_AGENT_HEADER_VALUE)],
+                        )
                     # TODO(abhinavsingh): Remove memoryview wrapping here after
                     # parser is fully memoryview compliant
                     self.upstream.queue(
                         memoryview(
-                            self.pipeline_request.build(),
+                            self.pipeline_request.build(
+                                disable_headers=self.flags.disable_headers,
+                            ),
                         ),
                     )
                     if not self.pipeline_request.is_connection_upgrade:
